@@ -246,9 +246,8 @@ fn eval_case_inner(line: &str) -> String {
             match guarded(|| SignType::from_bytes(&b)) {
                 None => "PANIC".to_string(),
                 Some(Ok(ty)) => format!("OK {}", st_index(ty)),
-                Some(Err(flipdot_core::SignTypeError::WrongConfigLength { expected, actual })) => {
-                    format!("ER LEN {} {}", expected, actual)
-                }
+                // the property fixes that every other length is rejected, not the numbers the error carries
+                Some(Err(flipdot_core::SignTypeError::WrongConfigLength { .. })) => "ER LEN".to_string(),
                 Some(Err(flipdot_core::SignTypeError::UnknownConfig { .. })) => "ER UNKNOWN".to_string(),
                 Some(Err(_)) => "ER ???".to_string(),
             }
@@ -267,9 +266,7 @@ fn eval_case_inner(line: &str) -> String {
             match guarded(|| Page::from_bytes(num(t[1]), num(t[2]), &bs[..])) {
                 None => "PANIC".to_string(),
                 Some(Ok(p)) => format!("OK {}", hex_of_bytes(p.as_bytes())),
-                Some(Err(flipdot_core::PageError::WrongPageLength { width, height, expected, actual })) => {
-                    format!("ER LEN {} {} {} {}", width, height, expected, actual)
-                }
+                Some(Err(flipdot_core::PageError::WrongPageLength { .. })) => "ER LEN".to_string(),
                 Some(Err(_)) => "ER ???".to_string(),
             }
         }
